@@ -53,6 +53,7 @@ def run(ctx: Ctx) -> None:
     rule_lc_check_inversion(ctx)
     rule_lc_toggle(ctx)
     rule_sign_repair(ctx)
+    rule_lc_matrix_form(ctx)
     rule_find_lc_binding(ctx)
     rule_lc_position(ctx)
     rule_lc_equivalent_direction(ctx)
@@ -355,6 +356,77 @@ def rule_lc_equivalent_direction(ctx: Ctx) -> None:
             raise AnalysisError(f"Graph.lc_equivalent: owners of the is_lc_equivalent arguments not resolved ({o1}, {o2})")
 
 
+def rule_lc_matrix_form(ctx: Ctx) -> None:
+    """lc.matrix-form: local_comp_graph computes A' = A (Gamma A + A_ii Gamma + I) mod 2 with Gamma the matrix that has a single 1 at
+    [i, i], and then clears the diagonal (Van den Nest et al.: this toggles exactly the edges among the neighbours of i).  The three
+    summands are compared as a set (order free), the product as written (A on the left), the reduction mod 2 and the cleared
+    diagonal as such."""
+    repo = ctx.repo
+    m = repo.module(LCE)
+    fn = repo.anchor(LCE, "local_comp_graph")
+    ctx.touch(m, fn)
+    node = func_params(fn)[1]
+    defs = {a.targets[0].id: a.value for a in fn.body if isinstance(a, ast.Assign) and len(a.targets) == 1 and isinstance(a.targets[0], ast.Name)}
+    A = next((k for k, v in defs.items() if any(isinstance(c, ast.Call) and call_attr(c) == "to_numpy_array" for c in ast.walk(v))), None)
+    I_ = next((k for k, v in defs.items() if isinstance(v, ast.Call) and call_name(v) in ("np.eye", "np.identity")), None)
+    G = next((k for k, v in defs.items() if isinstance(v, ast.Call) and call_name(v) == "np.zeros"), None)
+    if None in (A, I_, G):
+        raise AnalysisError("local_comp_graph: adjacency / identity / gamma matrices not found")
+    bad = []
+    one = [a for a in fn.body if isinstance(a, ast.Assign) and isinstance(a.targets[0], ast.Subscript) and norm(a.targets[0].value) == G]
+    if not (len(one) == 1 and norm(one[0].targets[0].slice) == f"({node}, {node})" and isinstance(one[0].value, ast.Constant) and one[0].value.value == 1):
+        bad.append(f"`{G}` must have a single 1 at [{node}, {node}]")
+    res = next((k for k, v in defs.items() if isinstance(v, ast.BinOp) and isinstance(v.op, ast.Mod) and any(isinstance(x, ast.BinOp) and isinstance(x.op, ast.MatMult) for x in ast.walk(v))), None)
+    if res is None:
+        raise AnalysisError("local_comp_graph: the matrix expression of the new adjacency matrix was not found")
+    e = defs[res]
+    mods = 0
+    while isinstance(e, ast.BinOp) and isinstance(e.op, ast.Mod) and isinstance(e.right, ast.Constant) and e.right.value == 2:
+        e = e.left
+        mods += 1
+    if mods == 0:
+        bad.append("the product is not reduced mod 2")
+    if not (isinstance(e, ast.BinOp) and isinstance(e.op, ast.MatMult) and norm(e.left) == A):
+        bad.append(f"the new matrix is not `{A} @ (...)`")
+    else:
+        inner = e.right
+        while isinstance(inner, ast.BinOp) and isinstance(inner.op, ast.Mod):
+            inner = inner.left
+        terms = []
+        def flat(x):
+            if isinstance(x, ast.BinOp) and isinstance(x.op, ast.Add):
+                flat(x.left); flat(x.right)
+            else:
+                terms.append(x)
+        flat(inner)
+        def canon(t):
+            if isinstance(t, ast.BinOp) and isinstance(t.op, ast.MatMult):
+                return ("mm", norm(t.left), norm(t.right))
+            if isinstance(t, ast.BinOp) and isinstance(t.op, ast.Mult):
+                return ("sc",) + tuple(sorted([norm(t.left), norm(t.right)]))
+            return ("id", norm(t))
+        got = sorted(canon(t) for t in terms)
+        want = sorted([("mm", G, A), ("sc",) + tuple(sorted([f"{A}[{node}, {node}]", G])), ("id", I_)])
+        if got != want:
+            bad.append(f"the bracket is the sum of {[ast.unparse(t) for t in terms]}; it must be {G} @ {A} + {A}[{node}, {node}] * {G} + {I_}")
+    diag = [l for l in fn.body if isinstance(l, ast.For) and any(isinstance(a, ast.Assign) and isinstance(a.targets[0], ast.Subscript) and norm(a.targets[0].value) == res
+                                                                 and isinstance(a.value, ast.Constant) and a.value.value == 0 for a in ast.walk(l))]
+    fill = any(isinstance(c, ast.Call) and call_name(c) == "np.fill_diagonal" for c in calls_in(fn))
+    if diag:
+        a0 = next(a for a in ast.walk(diag[0]) if isinstance(a, ast.Assign) and isinstance(a.targets[0], ast.Subscript))
+        jv = norm(diag[0].target)
+        nn = next((k for k, v in defs.items() if isinstance(v, ast.Call) and call_attr(v) == "number_of_nodes"), None)
+        if norm(a0.targets[0].slice) != f"({jv}, {jv})" or norm(diag[0].iter) != f"range({nn})":
+            bad.append("the diagonal of the new matrix is not cleared entry by entry over all nodes")
+    elif not fill:
+        bad.append("the diagonal of the new matrix is not cleared")
+    if bad:
+        for why in bad:
+            ctx.fail("lc.matrix-form", m, fn, f"local_comp_graph: {why}", func="local_comp_graph", construct=f"local_comp_graph: {why[:70]}")
+    else:
+        ctx.ok("lc.matrix-form", m, fn, what="A' = A (Gamma A + A_ii Gamma + I) mod 2, diagonal cleared")
+
+
 def rule_sign_repair(ctx: Ctx) -> None:
     """lc.sign-repair: converter_gate_list turns the per-qubit symplectic blocks into H / P strings, which fixes the stabilizer group only up
     to signs (H Y H = -Y: products of H-mapped generators pick up -1 as well), and then appends the Pauli corrections computed by
@@ -475,6 +547,8 @@ def rule_lc_toggle(ctx: Ctx) -> None:
 
 
 KNOCKOUTS = [
+    Knockout("local-complementation-gamma-on-the-right", LCE, sub_once("            gamma_matrix @ adj_matrix\n", "            adj_matrix @ gamma_matrix\n"), "lc.matrix-form", "bracket"),
+    Knockout("local-complementation-diagonal-kept", LCE, sub_once("    for j in range(n_nodes):\n        new_adj_matrix[j, j] = 0\n", ""), "lc.matrix-form", "diagonal"),
     Knockout("sign-repair-only-with-phase-gates", LCC, sub_once("    tab1 = get_stabilizer_tableau_from_graph(g1)\n    tab2 = get_stabilizer_tableau_from_graph(g2)\n    phase_correction = _phase_correction(tab1, tab2, gate_list)\n    gate_list += phase_correction\n", "    if any(\"P\" in ops for ops in lc_ops):\n        tab1 = get_stabilizer_tableau_from_graph(g1)\n        tab2 = get_stabilizer_tableau_from_graph(g2)\n        phase_correction = _phase_correction(tab1, tab2, gate_list)\n        gate_list += phase_correction\n"), "lc.sign-repair", "conditional"),
     Knockout("sign-repair-result-dropped", LCC, sub_once("    gate_list += phase_correction\n", ""), "lc.sign-repair", "corrections dropped"),
     Knockout("local-complementation-skips-degree-two", GRAPH, sub_once("        neighbor_pairs = itertools.combinations(neighbors, 2)\n", "        if len(neighbors) <= 2:\n            return output_graph\n        neighbor_pairs = itertools.combinations(neighbors, 2)\n"), "lc.toggle", "early return"),
